@@ -32,7 +32,7 @@ def run(ctx, report: Report) -> None:
     facts = Bs4Facts()
 
     # ---- R1 ----------------------------------------------------------------------------------------------
-    r1 = report.rule('C19-R1', 'node-kind classification is exhaustive', floor=3)
+    r1 = report.rule('C19-R1', 'node-kind classification is exhaustive', floor=2)
     _, iss = src.func('css_match._DocumentNav.is_special_string')
     classes = facts.element_classes()
     pre = facts.subclasses_of('PreformattedString')
@@ -286,7 +286,7 @@ def run(ctx, report: Report) -> None:
     descendants_table(ctx, r2)
 
     # ---- R6 (the whole pipeline by interpretation, bounded) --------------------------------------------------------------
-    r6 = report.rule('C19-R6', 'text pseudo-classes on a tree with split text, comments, CDATA, an iframe and text-less elements (whole pipeline; bounded)', floor=8)
+    r6 = report.rule('C19-R6', 'text pseudo-classes on a tree with split text, comments, CDATA, an iframe and text-less elements (whole pipeline; bounded)', floor=5)
     from .e2ematch import text_table
     text_table(ctx, r6)
 
